@@ -306,7 +306,12 @@ class HostCase:
                 eio = r.d.eio
                 orig = eio.send_packet
                 if r.d.is_async:
+                    cancelled = rng.random() < 0.5
+
                     async def boom2(*a, **k):
+                        if cancelled:
+                            # the send to this recipient is cancelled
+                            raise asyncio.CancelledError()
                         raise RuntimeError('injected send failure')
                 else:
                     def boom2(*a, **k):
@@ -380,10 +385,16 @@ class HostCase:
         (T, ns), sid = rng.choice(live)
         kinds = ['exception']
         if r.d.is_async:
-            kinds += ['cancelled', 'cancelled']
+            kinds += ['cancelled', 'cancelled', 'pending_future']
         how = rng.choice(kinds)
         fired = []
-        if r.d.is_async:
+        if how == 'pending_future':
+            # a plain function that starts something of its own and returns
+            # the future: the listener does not wait for it
+            def cb(*a):
+                fired.append(a)
+                return asyncio.get_event_loop().create_future()
+        elif r.d.is_async:
             async def cb(*a):
                 fired.append(a)
                 if how == 'cancelled':
@@ -424,6 +435,57 @@ class HostCase:
             return
         ctx.case((self.kind, 'raising_callback', how), {'how': how})
 
+    def step_emit_with_failing_send(self):
+        """A valid emit from another host whose delivery to the local
+        recipients fails inside the transport layer (an error, or - asyncio -
+        the cancellation of the send): the listener goes on."""
+        rng, r, ctx = self.rng, self.r, self.ctx
+        if not r.issued:
+            return
+        how = rng.choice(['error', 'cancelled'] if r.d.is_async
+                         else ['error'])
+        eio = r.d.eio
+        orig = eio.send_packet
+        state = {'n': 0}
+        only_first = rng.random() < 0.5
+        if r.d.is_async:
+            async def failing(*a, **k):
+                state['n'] += 1
+                if only_first and state['n'] > 1:
+                    return await orig(*a, **k)
+                if how == 'cancelled':
+                    raise asyncio.CancelledError()
+                raise ConnectionResetError('injected send failure')
+        else:
+            def failing(*a, **k):
+                state['n'] += 1
+                if only_first and state['n'] > 1:
+                    return orig(*a, **k)
+                raise ConnectionResetError('injected send failure')
+        (T, ns), lst = rng.choice(sorted(r.issued.items()))
+        msg = {'method': 'emit', 'event': 'update', 'data': 1,
+               'namespace': ns, 'room': None, 'skip_sid': None,
+               'callback': None, 'host_id': OTHER}
+        self.history.append(['emit_with_failing_send', how, only_first])
+        eio.send_packet = failing
+        try:
+            self.push(pickle.dumps(msg))
+        finally:
+            eio.send_packet = orig
+        ctx.count('emits_with_failing_send_' + how)
+        if self.listener_dead:
+            return self.fail('the listener stopped after the delivery of a '
+                             'remote emit failed in the transport (%s)'
+                             % how)
+        r.d.clear_errors()
+        for t in r.T.values():
+            t.drain()
+        if not self.sentinel('after a remote emit whose send failed (%s)'
+                             % how):
+            return
+        ctx.case((self.kind, 'emit_with_failing_send', how, only_first),
+                 None)
+
     def final(self):
         r, ctx = self.r, self.ctx
         # the outstanding local callback completes through a callback message
@@ -449,6 +511,11 @@ class HostCase:
         for _ in range(n):
             if self.rng.random() < 0.06:
                 self.step_raising_callback()
+                if self.failed:
+                    return
+                continue
+            if self.rng.random() < 0.06:
+                self.step_emit_with_failing_send()
                 if self.failed:
                     return
                 continue
